@@ -43,6 +43,9 @@ class TS:
             return PyCallable(lambda it, a, k, n: self, name)
         raise AbsRaise(ExcVal('AttributeError', (f"'Timestamp' object has no attribute '{name}'",)), node)
 
+    def abs_truth(self):
+        return True
+
     def __eq__(self, other):
         return isinstance(other, TS) and other.t == self.t
 
